@@ -1,6 +1,9 @@
 //@ property: C01 C12
 //@ mount: src/transaction.rs
 //@ functions: src/transaction.rs::TxInWitness::consensus_encode, src/transaction.rs::TxInWitness::consensus_decode, src/transaction.rs::TxOutWitness::consensus_encode, src/transaction.rs::TxOutWitness::consensus_decode, src/transaction.rs::TxInWitness::is_empty, src/transaction.rs::TxOutWitness::is_empty, src/transaction.rs::TxOutWitness::rangeproof_len, src/transaction.rs::TxOutWitness::surjectionproof_len, src/encode.rs::Option<Box<RangeProof>>::consensus_decode, src/encode.rs::Option<Box<SurjectionProof>>::consensus_decode, src/encode.rs::Vec<T>::consensus_decode
+// NOT RUN (`//@ unregistered-harness:`): every harness that moves a `Box<SurjectionProof>` (an 8 KB C struct) through the decoder -
+// measured 36 GB and growing after 3 minutes of CBMC symbolic execution even for the empty-vector case; the surjection-proof
+// codec is therefore NOT covered by the K-track (stated in coverage_notes C01/C12).
 // Assumptions: support/c01_ffi_models.rs — rangeproof_info / surjectionproof_parse accept a byte string iff a
 // functional predicate holds (never the empty string); surjectionproof_serialize inverts parse.
 use super::*;
@@ -95,7 +98,7 @@ opt_rangeproof_dec!(opt_rangeproof_dec_l0, 0);
 //@ clause: Option<Box<RangeProof>> decode of a 2-byte vector: Some iff the proof parser accepts the bytes, never None; consumed == 3; re-encoding reproduces the bytes; truncation is an error
 opt_rangeproof_dec!(opt_rangeproof_dec_l2, 2);
 
-//@ harness: opt_surjproof_dec_l2 class=F tier=quick bound="declared length byte 2"
+//@ unregistered-harness: opt_surjproof_dec_l2 class=F tier=quick bound="declared length byte 2"
 //@ clause: Option<Box<SurjectionProof>> decode of a 2-byte vector: Some iff the proof parser accepts, never None; consumed == 3; re-encoding reproduces the bytes; len() == 2
 ffi_proof! {
 fn opt_surjproof_dec_l2() {
@@ -129,7 +132,7 @@ fn opt_surjproof_dec_l2() {
 }
 }
 
-//@ harness: opt_surjproof_dec_l0 class=F tier=quick bound="declared length byte 0"
+//@ unregistered-harness: opt_surjproof_dec_l0 class=F tier=quick bound="declared length byte 0"
 //@ clause: Option<Box<SurjectionProof>>: the empty vector decodes to None and None encodes to the single byte 0
 ffi_proof! {
 fn opt_surjproof_dec_l0() {
@@ -355,12 +358,12 @@ macro_rules! txoutwitness_harness {
     };
 }
 
-//@ harness: txoutwitness_none class=F tier=quick bound="both proofs absent"
+//@ unregistered-harness: txoutwitness_none class=F tier=quick bound="both proofs absent"
 //@ clause: empty TxOutWitness <=> bytes 00 00; rangeproof_len == surjectionproof_len == 0; is_empty()
 txoutwitness_harness!(txoutwitness_none, 0, 0);
-//@ harness: txoutwitness_both class=B tier=thorough bound="surjection proof 2 bytes, range proof 3 bytes" timeout=900
+//@ unregistered-harness: txoutwitness_both class=B tier=thorough bound="surjection proof 2 bytes, range proof 3 bytes" timeout=900
 //@ clause: TxOutWitness: surjection proof then range proof, each length-prefixed; *_len() equal the serialized proof lengths; decode accepted iff both parse (one-byte truncation rejected); re-encoding reproduces the bytes
 txoutwitness_harness!(txoutwitness_both, 2, 3);
-//@ harness: txoutwitness_range_only class=B tier=thorough bound="no surjection proof, range proof 2 bytes" timeout=900
+//@ unregistered-harness: txoutwitness_range_only class=B tier=thorough bound="no surjection proof, range proof 2 bytes" timeout=900
 //@ clause: same with only a range proof
 txoutwitness_harness!(txoutwitness_range_only, 0, 2);
